@@ -86,11 +86,14 @@ def logical(reg):
         requires=['len(flatten_list) % 2 == 0',
                   'all(not is_err(flatten_list[i]) for i in range(len(flatten_list)))'],
         ensures={
-            'first_true_pair': 'any(p % 2 == 0 and truthy(flatten_list[p]) and result == flatten_list[p + 1] and '
-                               'all(implies(q % 2 == 0, not truthy(flatten_list[q])) for q in range(p)) '
-                               'for p in range(len(flatten_list))) or '
-                               '(all(implies(q % 2 == 0, not truthy(flatten_list[q])) for q in range(len(flatten_list))) '
-                               'and result == "#N/A")',
+            # the two clauses say "the value paired with the first true condition, #N/A when none is true" without an
+            # existential (the disjunctive form with any(...) was decided in 0.8 s .. 29 s .. unknown from run to run: the
+            # solver has to guess the witness); over a finite list they are equivalent to it (a true condition has a first one)
+            'first_true_pair': 'all(implies(p % 2 == 0 and truthy(flatten_list[p]) and '
+                               'all(implies(q % 2 == 0, not truthy(flatten_list[q])) for q in range(p)), '
+                               'result == flatten_list[p + 1]) for p in range(len(flatten_list)))',
+            'none_true': 'implies(all(implies(q % 2 == 0, not truthy(flatten_list[q])) for q in range(len(flatten_list))), '
+                         'result == "#N/A")',
         },
         invariants={0: {'even': 'is_int(index) and I(index) % 2 == 0 and I(index) >= 0',
                         'none_true_before': 'all(implies(q % 2 == 0, not truthy(flatten_list[q])) for q in range(I(index)))'}},
@@ -383,9 +386,9 @@ def lookup2(reg):
         {**SELF, 'lookup_value': 'int|float|str', 'lookup_array': 'list', 'match_type': 'int'}, self_class='ExcelInPython',
         requires=[rows, 'I(match_type) == 0'],
         ensures={
-            'first_equal_row': 'any(' + G.format(i='p') + ' and eqk(lookup_array[p][0], lookup_value) and result == p + 1 and '
-                               'all(not (' + G.format(i='q') + ' and eqk(lookup_array[q][0], lookup_value)) for q in range(p)) '
-                               'for p in range(len(lookup_array))) or '
+            'first_equal_row': '(is_int(result) and 1 <= I(result) and I(result) <= len(lookup_array) and ' +
+                               G.format(i='I(result) - 1') + ' and eqk(lookup_array[I(result) - 1][0], lookup_value) and '
+                               'all(not (' + G.format(i='q') + ' and eqk(lookup_array[q][0], lookup_value)) for q in range(I(result) - 1))) or '
                                '(result == "#N/A" and all(not (' + G.format(i='q') + ' and eqk(lookup_array[q][0], lookup_value)) '
                                'for q in range(len(lookup_array))))',
         },
@@ -399,9 +402,11 @@ def lookup2(reg):
         {**SELF, 'lookup_value': vsort, 'lookup_array': 'list', 'match_type': 'int'}, self_class='ExcelInPython',
         requires=[rows, 'I(match_type) > 0', asc],
         ensures={
-            'last_row_not_greater': 'any(' + G.format(i='p') + ' and lek(lookup_array[p][0], lookup_value) and result == p + 1 and '
-                                    'all(implies(q > p and ' + G.format(i='q') + ', not lek(lookup_array[q][0], lookup_value)) '
-                                    'for q in range(len(lookup_array))) for p in range(len(lookup_array))) or '
+            # the row is named by the result itself (p = result - 1), so no existential is needed
+            'last_row_not_greater': '(is_int(result) and 1 <= I(result) and I(result) <= len(lookup_array) and ' +
+                                    G.format(i='I(result) - 1') + ' and lek(lookup_array[I(result) - 1][0], lookup_value) and '
+                                    'all(implies(q > I(result) - 1 and ' + G.format(i='q') + ', not lek(lookup_array[q][0], lookup_value)) '
+                                    'for q in range(len(lookup_array)))) or '
                                     '(result == "#N/A" and all(implies(' + G.format(i='q') + ', not lek(lookup_array[q][0], lookup_value)) '
                                     'for q in range(len(lookup_array))))',
         },
